@@ -2,11 +2,15 @@
 C08 — Same seed, same run: independent of evaluator, threads, scheduling and cloning.
 Property theorems only; helper lemmas are in `Proofs/C08.lean` (and `Proofs/C15.lean` for the export).
 
-What is PROVED here is schedule-independence of evaluation and of seed derivation ON THE MODEL, that
+What is PROVED here is schedule-independence of evaluation (for every population size, every division
+of the slice among workers and every interleaving; with the exact condition under which an evaluator
+that visits only part of the slice still agrees with `Sequential`) and of seed derivation ON THE MODEL, that
 `Random` is a transparent wrapper of its backend (seed passed through unchanged, all four RngCore
 methods delegated, descendants at any depth), and which generator `optimize_with` / a `par_experiment`
 job draws from. The generator theorems are tied to the code (sites stream, seedmap, children, exp,
-exp-user). The run-level property itself (rayon's real scheduler, cloned trait objects, reuse of a
+exp-user), the evaluation theorems by the evaluate-* sites (real `Sequential` / `Parallel` /
+`PopulationEvaluator` on prepared populations of up to thousands of individuals under pools of 1–16
+threads, with the observed schedule as witness). The run-level property itself (rayon's real scheduler, cloned trait objects, reuse of a
 configuration object, process boundaries) is decided by exploration: digests of complete final states
 (see checklib/c08.py). There is no theorem for the cloning clause: the model has no mutable component
 state to copy.
@@ -157,6 +161,84 @@ theorem experiment_user_generator_kept {G : Type} (newG : Nat → G) (setup : Op
   · intro h; rw [h]
   · intro e h; rw [h]
 
+/-- EXACTLY when a completion order reproduces the sequential result — no assumption on `sched` at all
+(entries outside the slice write nothing, repeated entries are idempotent): every slot is visited, or
+already holds the value the objective function gives. So an evaluator that skips even one slot holding
+an unevaluated (or stale) individual — for whatever population size, thread count or block size —
+differs from `Sequential`; conversely visiting every slot suffices, whatever else happens. -/
+theorem evalPar_eq_evalSeq_iff {S O : Type} (f : S → O) (pop : List (Ind S O)) (sched : List Nat) :
+    evalPar f pop sched = pop.map (evalInd f) ↔
+      ∀ j (h : j < pop.length), j ∈ sched ∨ pop[j].obj = some (f pop[j].sol) :=
+  evalPar_eq_iff f pop sched
+
+/-- Thread-count independence of one evaluation: however the pool divides the slice (ANY split trees
+`t₁`, `t₂` — their shape is where the number of threads enters), whichever worker takes which block and
+however the workers' writes interleave (ANY worker-tagged event lists whose indices are a rearrangement
+of the leaves' indices; the worker tags are unconstrained, i.e. any number of threads), the result is
+the sequential one, hence the same under both pools. No side condition on the population size: a
+split tree divides the slice without remainder by construction (`Split.blocks_tile`). -/
+theorem thread_count_independent {S O : Type} (f : S → O) (pop : List (Ind S O)) (t₁ t₂ : Split)
+    (w₁ w₂ : List (Nat × Nat))
+    (h₁ : (w₁.map (·.2)).Perm ((t₁.blocks 0 pop.length).flatMap blockIdx))
+    (h₂ : (w₂.map (·.2)).Perm ((t₂.blocks 0 pop.length).flatMap blockIdx)) :
+    evalParW f pop w₁ = pop.map (evalInd f) ∧ evalParW f pop w₂ = evalParW f pop w₁ := by
+  have r : ∀ t : Split, (t.blocks 0 pop.length).flatMap blockIdx = List.range pop.length := fun t => by
+    rw [Split.blocks_tile, List.range_eq_range']
+  rw [r] at h₁ h₂
+  have e₁ := evalPar_eq f pop _ h₁
+  have e₂ := evalPar_eq f pop _ h₂
+  exact ⟨e₁, e₂.trans e₁.symm⟩
+
+/-- Blockwise evaluation (`par_chunks_mut(size)`, one block per task, e.g. `size = len / threads`): for
+every block size > 0, every population size (divisible by the block size or not) and every completion
+order of the blocks' indices the result is the sequential one. -/
+theorem blockwise_eq_evalSeq {S O : Type} (f : S → O) (pop : List (Ind S O)) (size : Nat) (hs : 0 < size)
+    (sched : List Nat) (h : sched.Perm ((chunks size pop.length).flatMap blockIdx)) :
+    evalPar f pop sched = pop.map (evalInd f) := by
+  rw [chunks_tile size pop.length hs] at h
+  exact evalPar_eq f pop sched h
+
+/-- … whereas with `par_chunks_exact_mut(size)` the result is the sequential one IFF every individual
+in the remainder `[⌊len / size⌋ · size, len)` already holds its objective value: for a freshly generated
+population exactly when `size ∣ len`. -/
+theorem blockwise_exact_eq_iff {S O : Type} (f : S → O) (pop : List (Ind S O)) (size : Nat)
+    (sched : List Nat) (h : sched.Perm ((chunksExact size pop.length).flatMap blockIdx)) :
+    evalPar f pop sched = pop.map (evalInd f) ↔
+      ∀ j (hj : j < pop.length), pop.length / size * size ≤ j → pop[j].obj = some (f pop[j].sol) := by
+  rw [chunksExact_cover] at h
+  rw [evalPar_eq_evalSeq_iff]
+  constructor
+  · intro hall j hj hge
+    rcases hall j hj with hm | hv
+    · have := List.mem_range.1 (h.mem_iff.1 hm); omega
+    · exact hv
+  · intro hall j hj
+    by_cases hlt : j < pop.length / size * size
+    · exact Or.inl (h.mem_iff.2 (List.mem_range.2 hlt))
+    · exact Or.inr (hall j hj (by omega))
+
+/-- The `PopulationEvaluator` component (pop the top population, evaluate, `Evaluations += len`, push
+back) leaves the same stack and the same counter with the parallel evaluator under any legal
+schedule as with the sequential one; populations below the top are not touched. -/
+theorem population_evaluator_schedule_independent {S O : Type} (f : S → O) (stack : List (List (Ind S O)))
+    (evals : Nat) (sched : List Nat) (h : sched.Perm (List.range (stack.headD []).length)) :
+    popEvaluate (fun q => evalPar f q sched) stack evals = popEvaluate (evalSeq f) stack evals ∧
+    (popEvaluate (evalSeq f) stack evals).1.drop 1 = stack.drop 1 ∧
+    (popEvaluate (evalSeq f) stack evals).2 = evals + (stack.headD []).length := by
+  cases stack with
+  | nil => simp [popEvaluate]
+  | cons top rest =>
+    simp only [List.headD_cons] at h
+    simp [popEvaluate, evalPar_eq f top sched h]
+
+/-- Runs under two different pools: with every evaluation step completing in an arbitrary legal order
+under the one pool (`schs₁`) and in another under the other (`schs₂`), the final states — population
+stack, generator position, evaluation count, best individual, log — coincide. -/
+theorem run_thread_count_independent (f : Nat → Nat) (stream : Nat → Nat) (ops : List Op)
+    (schs₁ schs₂ : List (List Nat)) (s : RunSt) (h₁ : Legal f stream ops schs₁ s) (h₂ : Legal f stream ops schs₂ s) :
+    SameUpToCallOrder (runPar f stream ops schs₁ s) (runPar f stream ops schs₂ s) :=
+  (run_schedule_independent f stream ops schs₁ s h₁).trans (run_schedule_independent f stream ops schs₂ s h₂).symm
+
 /-! Non-vacuity -/
 example : ([2, 0, 3, 1] : List Nat).Perm (List.range ([⟨5, none⟩, ⟨6, some 1⟩, ⟨7, none⟩, ⟨8, none⟩] : List (Ind Nat Nat)).length) := by
   decide
@@ -200,5 +282,31 @@ example : ((Random.withRng ctr (2 ^ 64 - 2)).descend id [0, 2, 1]).run [.u64, .u
 example : jobGenerator (fun run => (⟨0, run⟩ : GenId)) (setupSupply ⟨1, 7⟩) ⟨99, 0⟩ 3 = .ok ⟨1, 7⟩ := by decide
 example : jobGenerator (fun run => (⟨0, run⟩ : GenId)) setupKeep ⟨99, 0⟩ 3 = .ok ⟨0, 3⟩ := by decide
 example : ∀ s, setupKeep s = .ok s := fun _ => rfl
+
+
+/-- 7 individuals in blocks of 3 with `par_chunks_mut`: blocks (0,3) (3,3) (6,1); with `par_chunks_exact_mut`
+the last individual is never visited and stays unevaluated -/
+example : chunks 3 7 = [(0, 3), (3, 3), (6, 1)] ∧ chunksExact 3 7 = [(0, 3), (3, 3)] := by decide
+example : ([3, 4, 0, 5, 1, 2] : List Nat).Perm ((chunksExact 3 7).flatMap blockIdx) := by decide
+example : (evalPar (fun x => x * x) ((List.range 7).map fun i => (⟨i, none⟩ : Ind Nat Nat)) [3, 4, 0, 5, 1, 2]).map (·.obj)
+    = [some 0, some 1, some 4, some 9, some 16, some 25, none] := by decide
+/-- … and is the sequential result when the remainder was already evaluated -/
+example : evalPar (fun x => x * x) (((List.range 6).map fun i => (⟨i, none⟩ : Ind Nat Nat)) ++ [(⟨6, some 36⟩ : Ind Nat Nat)]) [3, 4, 0, 5, 1, 2]
+    = (((List.range 6).map fun i => (⟨i, none⟩ : Ind Nat Nat)) ++ [(⟨6, some 36⟩ : Ind Nat Nat)]).map (evalInd fun x => x * x) := by decide
+/-- two pools: an unbalanced split tree processed by workers 0 and 1, and a balanced one by workers 0..2 -/
+example : (Split.node 5 .leaf (.node 1 .leaf .leaf)).blocks 0 7 = [(0, 5), (5, 1), (6, 1)]
+    ∧ (Split.node 3 (.node 1 .leaf .leaf) (.node 2 .leaf .leaf)).blocks 0 7 = [(0, 1), (1, 2), (3, 2), (5, 2)] := by decide
+example : (([(1, 5), (0, 0), (1, 6), (0, 1), (0, 2), (0, 3), (0, 4)] : List (Nat × Nat)).map (·.2)).Perm
+    (((Split.node 5 .leaf (.node 1 .leaf .leaf)).blocks 0 7).flatMap blockIdx) := by decide
+example : (([(2, 3), (0, 0), (1, 1), (2, 4), (0, 5), (1, 2), (0, 6)] : List (Nat × Nat)).map (·.2)).Perm
+    (((Split.node 3 (.node 1 .leaf .leaf) (.node 2 .leaf .leaf)).blocks 0 7).flatMap blockIdx) := by decide
+example : ([2, 0, 1] : List Nat).Perm (List.range (([[⟨5, none⟩, ⟨6, some 1⟩, ⟨7, none⟩], [⟨9, none⟩]] : List (List (Ind Nat Nat))).headD []).length) := by decide
+example : popEvaluate (fun q => evalPar (fun x => x * x) q [2, 0, 1]) ([[⟨5, none⟩, ⟨6, some 1⟩, ⟨7, none⟩], [⟨9, none⟩]] : List (List (Ind Nat Nat))) 10
+    = (([[⟨5, some 25⟩, ⟨6, some 36⟩, ⟨7, some 49⟩], [⟨9, none⟩]] : List (List (Ind Nat Nat))), 13) := by decide
+/-- two legal schedule lists for the same run (the second evaluates in slice order) -/
+example : Legal (fun x => x + 1) (fun i => 5 * i + 1)
+    [.spawn, .spawn, .eval, .best, .log, .select, .perturb, .eval, .merge, .best, .log]
+    [[0, 1], [0, 1]] ⟨[], 0, 0, none, [], []⟩ := by
+  simp [Legal, stepOther, evalStepSeq, evalSeq, evalInd, setCur, cur, modifyAt]; decide
 
 end MahfModel.Props.C08
